@@ -35,6 +35,7 @@ ASSUMPTIONS = [
 ]
 PRE_LEAN = C.s2_trace_tensors   # S2: tensors.py kernels re-traced on every run
 EXTRA_LEAN_MODULES = ("Bridge.Tensors",)
+JIT_TWIN = ('voigt',)   # groups of harness/jittwin.py: the numba-compiled code is run on the same battery and compared
 TRUSTED = ["recording proxy placed on pydrex.diagnostics.la (forwards to scipy.linalg)",
            "numpy einsum + an independent Voigt table as reference for rotation, invariants and norms"]
 
